@@ -74,6 +74,7 @@ class Trace:
         self.closes = []
         self.removes = []
         self.txn = []  # add_transaction
+        self.mtc = []  # MaxTransactionCount._validate calls
         self.callbacks = []  # auditor callbacks (strategy name, kind, market, pt, utcnow)
         self.online = []  # violations found online by hooks
         self.counters = collections.Counter()
@@ -639,6 +640,25 @@ def attach(tr):
         return add_transaction
 
     _wrap(MaxTransactionCount, "add_transaction", mk_txn)
+
+    def mk_mtc_validate(orig):
+        def _validate(self, order, package_type):
+            import datetime as _dt
+
+            rec = {"seq": TR.nseq(), "tick": TR.tick, "client": self.client.username, "now": _dt.datetime.utcnow(), "kind": KIND[package_type], "o": TR.okey(order), "limit": self.client.transaction_limit, "raised": False}
+            TR.mtc.append(rec)
+            try:
+                return orig(self, order, package_type)
+            except BaseException:
+                rec["raised"] = True
+                raise
+            finally:
+                rec["hourly_after"] = self.current_transaction_count_total
+                rec["total_after"] = self.transaction_count_total
+
+        return _validate
+
+    _wrap(MaxTransactionCount, "_validate", mk_mtc_validate)
 
     # ---- clock ---------------------------------------------------------------------------
     def mk_clock(orig):
